@@ -3,6 +3,7 @@
 
 mod bridge;
 mod c15;
+mod c16;
 mod explore;
 mod families;
 mod lockstep;
@@ -67,6 +68,7 @@ fn main() {
         "C06" => search::run_c06(&ctx),
         "C14" => ucichecks::run_c14(&ctx),
         "C15" => c15::run_c15(&ctx),
+        "C16" => c16::run_c16(&ctx),
         "C17" => search::run_c17(&ctx),
         "C18" => ucichecks::run_c18(&ctx),
         "C19" => search::run_c19(&ctx),
